@@ -8,7 +8,7 @@ def run(ctx):
     # self-test: an encoder that writes error text raw must violate RepliesWellFormed on the design model
     ctx.tlc_gen("MC_Resp", R.mc(1, 1, legacy='{"encode"}', emit=""), "legacy-encode-selftest", expect_violation=True)
     # design: every reply of the modelled command layer to every frame of the universe is one frame, under every chunking
-    ctx.tlc_gen("MC_Resp", R.mc(2, 2, emit="", univ="{1,3,4,5,7,9,11,12,13,14,15,16}"), "design")
+    ctx.tlc_gen("MC_Resp", R.mc(2, 2, emit="", univ="{1,3,4,5,7,9,11,12,13,14,15,16}") if q else R.mc(2, 3, emit=""), "design", timeout=2400)
     # commands / queries / stored data with CR, LF, CRLF-bearing text in every syntactic position
     # ... and (Sweep scripts) at every byte offset of an argument
     scripts = ctx.tlc_gen("MC_RespProbe", R.probe("CSpec", "EmitCur"), "commands")
